@@ -186,6 +186,7 @@ func (sn *Node) GetOccupiedResource() *resources.Resource {
 }
 
 func (sn *Node) UpdateAllocatedResource(delta *resources.Resource) {
+	defer sn.notifyListeners()
 	sn.Lock()
 	defer sn.Unlock()
 	sn.allocatedResource.AddTo(delta)
